@@ -38,8 +38,19 @@ GtH(ch) == IF ch[1].len > ch[2].len THEN ch[1] ELSE ch[2]
 \* AVX mixed-radix stages (src/avx/avx_mixed_radix.rs, mixedradix_gen_data!): Rxn over an inner transform
 AvxRadixScr(len, inner) == << len + inner[OOP], IF inner[IP] > len THEN inner[IP] ELSE 0, len + inner[IP] >>
 
+\* RadersAvx2 (src/avx/avx_raders.rs) and BluesteinsAvx (src/avx/avx_bluesteins.rs)
+AvxRadersScr(inner) ==
+    LET extra == IF inner.scr[IP] <= inner.len THEN 0 ELSE inner.scr[IP] IN
+    << inner.len + 1 + extra, extra, inner.len + inner.scr[IP] + 1 >>
+AvxBluesteinsScr(inner) == LET m == inner.len + inner.scr[IP] IN <<m, m, m>>
+\* the immutable path of RadersAvx2 runs its FIRST inner FFT with scratch2[1..] (inner.len elements) as the inner scratch:
+\* the planner must never put an inner transform there that needs more in-place scratch than its own length
+AvxRadersPre(ch) == ch[1].scr[IP] <= ch[1].len
+
 Scr(k, len, ch) ==
-    CASE k \in {"Butterfly", "PrimeButterfly"} -> <<0, 0, 0>>
+    CASE k \in {"Butterfly", "PrimeButterfly", "ButterflyBase"} -> <<0, 0, 0>>
+      [] k = "AvxRaders" -> AvxRadersScr(ch[1])
+      [] k = "AvxBluesteins" -> AvxBluesteinsScr(ch[1])
       [] k = "Dft" -> <<len, 0, 0>>
       [] k = "MixedRadix" ->
             LET w2 == ch[1] h2 == ch[2] IN
@@ -75,7 +86,19 @@ SmallPre(ch) == \A i \in DOMAIN ch : ch[i].scr[OOP] = 0 /\ ch[i].scr[IP] <= ch[i
 Call(c, e, given, ok7) == [c |-> c, e |-> e, given |-> given, ok |-> ok7]
 
 Calls(k, len, ch, entry, S) ==
-    CASE k \in {"Butterfly", "PrimeButterfly"} -> {}
+    CASE k \in {"Butterfly", "PrimeButterfly", "ButterflyBase"} -> {}
+      [] k = "AvxRaders" ->
+            LET inner16 == ch[1] IN
+            (CASE entry = IP ->
+                   \* scratch.split_at_mut(len); both inner FFTs run on scratch[1..] with the extra scratch, or with the buffer
+                   LET extra16 == S - len IN { Call(inner16, IP, IF extra16 > 0 THEN extra16 ELSE len, S >= len) }
+              [] entry = OOP -> { Call(inner16, IP, IF S > 0 THEN S ELSE inner16.len, TRUE) }
+              [] entry = IM  ->
+                   \* scratch.split_at_mut(len): first inner FFT on output[1..] with scratch2[1..], second on scratch2[1..] with the rest
+                   { Call(inner16, IP, inner16.len, S >= len), Call(inner16, IP, S - len, S >= len) })
+      [] k = "AvxBluesteins" ->
+            \* all three entries: scratch.split_at_mut(inner len), inner FFT in place on the first part with the rest
+            { Call(ch[1], IP, S - ch[1].len, S >= ch[1].len) }
       [] k = "Dft" -> {}
       [] k = "MixedRadix" ->
             LET w9 == ch[1] h9 == ch[2] IN
